@@ -714,7 +714,11 @@ def run(ck):
 
     # ------------------------------------------------------------ backends.select vs backend_of
     strs = sorted(set([d for d, _ in loc_cases] + TPL_HEADS + ['', 'jugdata', 'dict_store:x.pkl', 'dict_storex', 'redis:',
-                                                                 'file_keepalive:/a/b', 'redis://localhost:6379/0', 'a/redis:', 'dict_store:']))
+                                                                 'file_keepalive:/a/b', 'redis://localhost:6379/0', 'a/redis:', 'dict_store:',
+                                                                 # locations that contain a colon themselves
+                                                                 'dict_store:a:b', 'dict_store:node7:scratch/x.pkl', 'dict_store::x',
+                                                                 'file_keepalive:node7:scratch/jd', 'file_keepalive:2024-05-01T12:30:00.jugdata',
+                                                                 'file_keepalive::', 'file_keepalive:dict_store:x', 'node7:scratch/jd']))
     sel_cases = []
     with patched_select():
         for s in strs:
